@@ -39,5 +39,5 @@ def import_cij():
 
 # keep the code under test quiet (its loggers write warnings for every calculation)
 import logging as _logging
-_logging.getLogger("cij").setLevel(_logging.ERROR)
-_logging.getLogger("cij.core.calculator").setLevel(_logging.ERROR)
+_logging.getLogger("cij").setLevel(_logging.CRITICAL)
+_logging.getLogger("cij.core.calculator").setLevel(_logging.CRITICAL)
